@@ -534,8 +534,10 @@ pub fn drive_c13(t: &Tier, m: &mut Matrix, sink: &mut Sink) {
             sink.emit(m.run(&Case::new("write_fail", x.clone()).a(a)));
         }
         for chunk in [1usize, 3, 7] {
-            let a = Args { e: Some(if chunk % 2 == 0 { 'L' } else { 'B' }), n: Some(chunk as u128), ..Default::default() };
-            sink.emit(m.run(&Case::new("write_chunk", x.clone()).a(a)));
+            for e in ['L', 'B'] {
+                let a = Args { e: Some(e), n: Some(chunk as u128), ..Default::default() };
+                sink.emit(m.run(&Case::new("write_chunk", x.clone()).a(a)));
+            }
         }
     }
     // from_bytes: byte strings of 0..k bytes
@@ -571,7 +573,9 @@ pub fn drive_c13(t: &Tier, m: &mut Matrix, sink: &mut Sink) {
             for style in 0..t.q(2, 6) {
                 let stream: Vec<u8> = (0..sl).map(|_| if style == 0 { 0xFF } else { rng.next() as u8 }).collect();
                 for e in ['L', 'B'] {
-                    let a = Args { e: Some(e), bytes: Some(stream.clone()), n: Some(n as u128), ..Default::default() };
+                    // the reader delivers everything at once, or at most 1 / 3 bytes per call
+                    let chunk = [None, Some(1usize), Some(3)][(n + style) % 3];
+                    let a = Args { e: Some(e), bytes: Some(stream.clone()), n: Some(n as u128), j: chunk, ..Default::default() };
                     sink.emit(m.run(&Case::new("read", vec![]).a(a).capsens()));
                 }
             }
